@@ -35,11 +35,17 @@ GetWeights == Do(<<"weights">>) /\ UNCHANGED <<W, B>>
 SetW(v, via) == Do(<<"setW", v, via>>) /\ W' = v /\ UNCHANGED B
 SetB(v, via) == Do(<<"setB", v, via>>) /\ B' = v /\ UNCHANGED W
 Forward == Do(<<"forward">>) /\ UNCHANGED <<W, B>>
+(* a Forward with an input of rank 3 (the precondition is rank 2): rejected, nothing changes *)
+BadForward == Do(<<"badforward">>) /\ UNCHANGED <<W, B>>
+(* the caller overwrites the entries of the list the last Weights() call returned (the list is the caller's): nothing changes *)
+ScribbleList == Do(<<"scribble">>) /\ UNCHANGED <<W, B>>
 
 Next == \/ GetWeights
         \/ \E v \in {1, 2}, via \in Vias : SetW(v, via)
         \/ \E via \in {"first", "last"} : SetB(1, via)
         \/ Forward
+        \/ BadForward
+        \/ ScribbleList
 Spec == Init /\ [][Next]_vars
 
 (* what the Forward that has just been appended must return *)
